@@ -5,6 +5,7 @@ import Ivg.Gen.Tie.DecodeErrors
 import Ivg.Gen.Tie.Magic
 import Ivg.Gen.Tie.Mids
 import Ivg.Gen.Tie.MiscFields
+import Ivg.Gen.Tie.Code.DecNumbers
 import Ivg.Obligations
 /-!
 # C13 — metadata: what Reset receives, what is rejected, and metadata-only decoding
@@ -323,4 +324,14 @@ end Ivg.Props.C13
   Ivg.Gen.Tie.decodeErrors_tie,
   Ivg.Gen.Tie.defaultViewBox_tie,
   Ivg.Gen.Tie.mids_tie,
-  Ivg.Gen.Tie.metadata_fields_tie]
+  Ivg.Gen.Tie.metadata_fields_tie,
+  -- regenerated code (translator, Ivg/Gen/Code) = model, for all inputs: DecNumbers
+  Ivg.Gen.Tie.decodeNatural_code_tie,
+  Ivg.Gen.Tie.decodeNatural_model_eq,
+  Ivg.Gen.Tie.decodeReal_code_tie,
+  Ivg.Gen.Tie.decodeReal_model_eq,
+  Ivg.Gen.Tie.decodeCoordinate_code_tie,
+  Ivg.Gen.Tie.decodeCoordinate_model_eq,
+  Ivg.Gen.Tie.decodeZeroToOne_code_tie,
+  Ivg.Gen.Tie.decodeZeroToOne_model_eq,
+  Ivg.Gen.Tie.isNaNOrInfinity_code_tie]
